@@ -34,6 +34,11 @@ def run_one(sid, checks, tier):
     if r.returncode != 0:
         sys.exit(f"patch does not apply: {r.stdout}")
     results = {}
+    # evidence written while a patch is applied describes the patched tree: keep the real one
+    ev, ev_bak = os.path.join(VERIF, "evidence"), os.path.join(VERIF, ".work", "evidence-backup")
+    shutil.rmtree(ev_bak, ignore_errors=True)
+    if os.path.isdir(ev):
+        shutil.copytree(ev, ev_bak)
     sh(["git", "-C", REPO, "apply", patch])
     try:
         before = set(glob.glob(os.path.join(VERIF, "replays", "*")))
@@ -62,6 +67,9 @@ def run_one(sid, checks, tier):
     finally:
         sh(["git", "-C", REPO, "checkout", "--", "."])
         assert clean_repo()
+        if os.path.isdir(ev_bak):
+            shutil.rmtree(ev, ignore_errors=True)
+            shutil.copytree(ev_bak, ev)
     out = {"seeded": sid, "property": meta["property"], "tier": tier, "results": results,
            "caught": any(v["exit"] == 1 for v in results.values())}
     json.dump(out, open(os.path.join(d, "result.json"), "w"), indent=1)
@@ -84,8 +92,6 @@ def main():
             run_one(os.path.basename(os.path.dirname(d)), [], tier)
     else:
         sys.exit(__doc__)
-    # evidence files were rewritten against a patched tree: they must be regenerated on the real one
-    print("NOTE: evidence/*.json now describe patched trees; re-run the checks on the unchanged tree before committing evidence.")
 
 
 if __name__ == "__main__":
